@@ -1,5 +1,7 @@
 #!/bin/bash
+# both tiers: the same relations against ark-ff built with the `asm` feature (tools/asm_stage.sh)
 # thorough tier: coverage-guided stage (libFuzzer target with in-target oracle), see tools/fuzz_stage.sh
-[ "${1:-quick}" = "thorough" ] || exit 0
 ROOT="${VERIF_ROOT:-/verif}"
+"$ROOT/tools/asm_stage.sh" C15 "${1:-quick}" || exit $?
+[ "${1:-quick}" = "thorough" ] || exit 0
 exec "$ROOT/tools/fuzz_stage.sh" C15 bigint_ops 1500000 230 8
